@@ -599,13 +599,9 @@ namespace link_layer {
         // invalid LLID
         if ( ( header & 0x3 ) != 0 )
         {
+            // the received PDU is not stored and thus must not be acknowledged. If it was a PDU that was
+            // resent, it was already acknowledged.
             acknowledge( header & nesn_flag );
-
-            // resent PDU?
-            if ( static_cast< bool >( header & sn_flag ) == next_expected_sequence_number_ )
-            {
-                next_expected_sequence_number_ = !next_expected_sequence_number_;
-            }
         }
 
         return next_transmit();
